@@ -10,7 +10,9 @@ EVBAK=$(mktemp -d)
 cp -r /verif/evidence/. "$EVBAK"/ 2>/dev/null
 restore() { git -C /repo checkout -- . ; cp -r "$EVBAK"/. /verif/evidence/ 2>/dev/null; rm -rf "$EVBAK";
   # the harness binaries were linked against the patched tree: relink them against the restored one
-  (cd /verif/harness && CARGO_NET_OFFLINE=true cargo build --offline --quiet >/dev/null 2>&1); }
+  (cd /verif/harness && CARGO_NET_OFFLINE=true cargo build --offline --quiet >/dev/null 2>&1)
+  # ... and the generated Lean files were translated from it: translate the restored tree again
+  (cd /verif && ./harness/target/debug/harness dump-table > work/dump.jsonl && python3 tools/gen_table.py work/dump.jsonl /repo lean/ChemProofs/Gen >/dev/null && python3 tools/gen_consts.py /repo lean/ChemProofs/Gen >/dev/null); }
 trap restore EXIT INT TERM
 git -C /repo apply $REV "$PATCH" || { echo "patch does not apply"; exit 3; }
 for p in "$@"; do
